@@ -259,6 +259,31 @@ int main(int argc, char** argv) {
                     out << "o idx " << i << " " << hexLabel(info.SiteLabel) << " " << info.Orbital << " " << info.Spin
                         << " " << s.Idx->getIndex(info.SiteLabel, info.Orbital, info.Spin) << "\n";
                 }
+            } else if (cmd == "collide") {
+                // search for two different site labels that the key order of the index table cannot tell apart
+                // (IndexInfo::operator< is the order of std::map<IndexInfo, ParticleIndex>): sort n generated labels by it and
+                // look at neighbours
+                size_t n; unsigned long long seed; is >> n >> seed;
+                std::vector<const IndexClassification::IndexInfo*> v;
+                v.reserve(n);
+                unsigned long long x = seed * 0x9E3779B97F4A7C15ULL + 1;
+                for (size_t q = 0; q < n; ++q) {
+                    x ^= x << 13; x ^= x >> 7; x ^= x << 17;
+                    std::string l; unsigned long long y = x;
+                    size_t len = 3 + (q % 6);
+                    for (size_t c = 0; c < len; ++c) { l += char('a' + y % 26); y /= 26; }
+                    v.push_back(new IndexClassification::IndexInfo(l, 0, 0));
+                }
+                struct ByKey { bool operator()(const IndexClassification::IndexInfo* a, const IndexClassification::IndexInfo* b) const { return *a < *b; } };
+                std::sort(v.begin(), v.end(), ByKey());
+                bool found = false;
+                for (size_t q = 0; q + 1 < v.size() && !found; ++q)
+                    if (!(*v[q] < *v[q+1]) && !(*v[q+1] < *v[q]) && v[q]->SiteLabel != v[q+1]->SiteLabel) {
+                        out << "o collision " << hexLabel(v[q]->SiteLabel) << " " << hexLabel(v[q+1]->SiteLabel) << "\n";
+                        found = true;
+                    }
+                if (!found) out << "o nocollision " << n << "\n";
+                for (size_t q = 0; q < v.size(); ++q) delete v[q];
             } else if (cmd == "getindex") {
                 std::string lab; unsigned orb, spin; is >> lab >> orb >> spin;
                 unsigned gi = s.Idx->getIndex(unhexLabel(lab), orb, spin);
